@@ -40,6 +40,7 @@ type Case struct {
 	Queue  *QueueCase           `json:"queue,omitempty"`
 	TLS    *tlsrestart.Scenario `json:"tls,omitempty"`
 	Big    *BigCase             `json:"big,omitempty"`
+	Rejoin *RejoinCase          `json:"rejoin,omitempty"`
 }
 
 type ChanOp struct {
@@ -728,6 +729,11 @@ func TestCheck(t *testing.T) {
 		if thorough {
 			bigs = append(bigs, BigCase{Silences: 5000, Entries: 5000}, BigCase{Silences: 2000, Entries: 0}, BigCase{Silences: 0, Entries: 3000})
 		}
+		cases = append(cases, Case{Kind: "flags"})
+		rejoins := []RejoinCase{{ReconnectTimeoutS: 60, DownS: 400}, {ReconnectTimeoutS: 120, DownS: 700}, {ReconnectTimeoutS: 600, DownS: 30}}
+		for i := range rejoins {
+			cases = append(cases, Case{Kind: "rejoin", Rejoin: &rejoins[i]})
+		}
 		for i := range bigs {
 			cases = append(cases, Case{Kind: "big", Big: &bigs[i]})
 		}
@@ -800,6 +806,10 @@ func TestCheck(t *testing.T) {
 			default:
 				tags[fmt.Sprintf("lost-while-dead-connection-was-discovered=%d", o.AfterSent-o.AfterArrived)] = 1
 			}
+		case "flags":
+			viols, tags = runFlagDefaults()
+		case "rejoin":
+			viols, tags = runRejoin(t, c.Rejoin)
 		case "big":
 			viols, tags = runBig(t, c.Big)
 		case "queue":
